@@ -423,6 +423,8 @@ def reproduce(mod, v: Viol, ctx) -> bool:
 def run_check(pid, tier, seed):
     t0 = time.time()
     boot()
+    from mc import hist
+    hist.TIER = tier
     mod = load_prop(pid)
     ctx = mod.context(tier, seed)
     ctx.setdefault("tier", tier)
@@ -493,6 +495,8 @@ def run_replay(pid, path):
     boot()
     mod = load_prop(pid)
     rec = json.load(open(path))
+    from mc import hist
+    hist.TIER = rec.get("tier", "quick")
     ctx = mod.context(rec.get("tier", "quick"), rec.get("seed", 0))
     try:
         got = mod.replay(rec["case"], ctx)
